@@ -328,6 +328,10 @@ def units_for(prop, tier):
     if prop in ("C05", "C08"):
         # the indexed forms that are compositions (map_indexed, skip_while_indexed, starmap_indexed, pluck_attr) and the stage that attaches the index
         us.append({"runner": "indexed", "prop": prop, "id": "reactivex/operators::indexed-forms"})
+    if prop in ("C05", "C08", "C15", "C38"):
+        # the notification classes: elements of materialize / dematerialize (C05, C08: falsy payloads; C15: timestamp / delay go through materialize),
+        # and what the marble test helpers record (C38)
+        us.append({"runner": "notif", "prop": prop, "id": "reactivex/notification.py::Notification"})
     if "srcwire" in fams:
         us.append({"runner": "srcwire", "prop": prop, "id": "reactivex/observable/repeat.py::repeat_value_"})
     if "catchsched" in fams:
